@@ -304,12 +304,21 @@ def check(an: Analysis) -> None:
             continue
         saw_disp = False
         disp_defs: list[ast.AST] = []
+        holders: set[str] = set()
+        conditional_disp: dict[int, ast.AST] = {}
         for c in ups:
             ob.inst(f, c)
             arg = c.args[0] if c.args else None
             alts = [arg]
             if isinstance(arg, ast.Name) and d.owner(arg.id) is not None and d.single_value(arg.id) is None:
                 alts = [n for k, n in d.defs(d.owner(arg.id), arg.id) if k == "value" and not getattr(parent(n), "_inline_init", False)] or [arg]
+            if isinstance(unwrap(arg), ast.IfExp):
+                # StateContext.updated(<plain state> if self._disposables is None else <state + disposables' state>)
+                ife = unwrap(arg)
+                edge_none = c02.none_edge(ife.test, "_disposables")  # "T": the test is true when there are no disposables
+                if edge_none in ("T", "F"):
+                    alts = [ife.body, ife.orelse]
+                    conditional_disp[id(c)] = ife.orelse if edge_none == "T" else ife.body
             for alt in alts:
                 order = merge_order(d, alt, _stack=frozenset({id(alt)})) if alt is not None else None
                 if order is None:
@@ -323,13 +332,21 @@ def check(an: Analysis) -> None:
                 if set(order) - {"attr:self._state"} - set(disp):
                     ob.fail(f, c, f"unexpected state source {order}")
             p = parent(c)
-            if not (isinstance(p, (ast.Assign, ast.AnnAssign)) and dotted(p.targets[0] if isinstance(p, ast.Assign) else p.target) == "self._state_context"):
+            tgt_ = (p.targets[0] if isinstance(p, ast.Assign) else p.target) if isinstance(p, (ast.Assign, ast.AnnAssign)) else None
+            if isinstance(tgt_, ast.Name):
+                # held in a local first: that local (every definition of which is such a derived context) is what gets stored
+                holders.add(tgt_.id)
+                stored_from_local = any(isinstance(x, (ast.Assign, ast.AnnAssign)) and dotted(x.targets[0] if isinstance(x, ast.Assign) else x.target) == "self._state_context" and is_name(unwrap(x.value), tgt_.id) for x in f.own_nodes())
+                pure_holder = all(k == "value" and isinstance(unwrap(v), ast.Call) and unwrap(v) in ups for k, v in d.defs(f, tgt_.id))
+                if not (stored_from_local and pure_holder):
+                    ob.fail(f, c, "the derived state context is not stored as self._state_context")
+            elif not (tgt_ is not None and dotted(tgt_) == "self._state_context"):
                 ob.fail(f, c, "the derived state context is not stored as self._state_context")
         if needs_disp and not saw_disp:
             ob.fail(f, ups[0], "state yielded by the disposables is not merged into the scope state")
         if needs_disp:
             # on the disposables-present paths the merged variant must be the one built
-            dn = [n for n in gf.nodes if (n.kind == "call" and n.ast in ups and n.ast.args and n.ast.args[0] in disp_defs) or (n.kind == "stmt" and getattr(n.ast, "value", None) is not None and any(n.ast.value is x for x in disp_defs))]  # type: ignore[union-attr]
+            dn = [n for n in gf.nodes if (n.kind == "call" and n.ast in ups and n.ast.args and (n.ast.args[0] in disp_defs or conditional_disp.get(id(n.ast)) in disp_defs)) or (n.kind == "stmt" and getattr(n.ast, "value", None) is not None and any(n.ast.value is x for x in disp_defs))]  # type: ignore[union-attr]
 
             def skipnone(a, b, lab):
                 return a.kind == "test" and c02.none_edge(a.ast, "_disposables") == lab
@@ -337,7 +354,7 @@ def check(an: Analysis) -> None:
             w = gf.must_pass(lambda n: n in dn, exits=("exit-return",), skip_edge=both(normal_only, skipnone))
             if w is not None:
                 ob.fail(f, ups[0], "with disposables present a path enters the scope without their state", CFG.show_path(w))
-        enters = [n for n in gf.nodes if n.kind == "call" and an.callee(f, n.ast) == q(f"{SC}.__enter__") and dotted(n.ast.func.value) == "self._state_context"]  # type: ignore[union-attr]
+        enters = [n for n in gf.nodes if n.kind == "call" and an.callee(f, n.ast) == q(f"{SC}.__enter__") and (dotted(n.ast.func.value) == "self._state_context" or (isinstance(n.ast.func.value, ast.Name) and n.ast.func.value.id in holders))]  # type: ignore[union-attr]
         if not enters:
             ob.fail(f, None, "the derived state context is never entered")
         else:
